@@ -74,6 +74,15 @@ def programs():
     P['close-then-abandon||send_text'] = dict(z=None, threads=[[['close', 1000, 'bye'], ['abandon']], [['send_text', 'T1-0']]])
     P['close-then-abandon||send_binary+ping'] = dict(z=None, threads=[[['close'], ['abandon']], [['send_binary', b'T1-0'], ['send_ping', b'T1-1']]])
     P['close-then-abandon||close'] = dict(z=None, threads=[[['close', 1000, 'first'], ['abandon']], [['close', 1001, 'second']]])
+    # the old loop is being torn down (abandoned) on one thread while another thread has connected the same object
+    # again and closes the NEW connection: judged is the wire of connection 2
+    P['abandon||reconnect+close||send_text'] = dict(z=None, wire_conn=1, threads=[[['abandon']], [['reconnect'], ['close', 1000, 'bye']],
+                                                                               [['send_text', 'T2-0']]])
+    # the same, with the reconnect + close() of the other thread pinned to the moment the abandoning thread is inside
+    # socket.close() (one preemption is then enough to see what the rest of the tear-down does to connection 2)
+    P['abandon[reconnect+close inside socket.close()]||send_text'] = dict(z=None, wire_conn=1, on_socket_close=[['reconnect'], ['close', 1000, 'bye']],
+                                                                        threads=[[['abandon']], [['send_text', 'T1-0']]])
+    P['abandon||reconnect+close+send'] = dict(z=None, wire_conn=1, threads=[[['abandon']], [['reconnect'], ['close', 1000, 'bye'], ['send_binary', b'T1-2']]])
     return P
 
 
@@ -95,7 +104,11 @@ def judge_c12(prog, out):
         if t.exc is not None:
             detail['thread_exc'] = repr(t.exc)
             return 'thread-died-with-exception', detail, None
-    frames, residue, errors = c11.wire_frames(w)
+    for ci, c in enumerate(w.conns):
+        if c.tx and not bytes(c.tx).startswith((b'GET ', b'CONNECT ')):
+            detail['first_bytes'] = bytes(c.tx[:40])
+            return 'frame-written-before-the-upgrade-request', detail, None
+    frames, residue, errors = c11.wire_frames(w, prog.get('wire_conn', 0))
     detail['wire'] = [(f['opcode'], f['payload'][:12]) for f in frames]
     if residue or errors:
         return 'wire-not-a-sequence-of-whole-frames', detail, None
@@ -113,11 +126,16 @@ def judge_c12(prog, out):
         if not r['ok']:
             if not issubclass(r['exc_type'], lerrors.WebSocketError):
                 return 'racing-call-raised-non-websocket-error:%s' % r['exc_type'].__name__, detail, None
-        if call[0] in ('close', 'abandon'):
+        if call[0] in ('close', 'abandon', 'reconnect'):
             continue
         op, pl = c11.expected_payload(call)
         on_wire = [k for k, f in enumerate(frames) if f['opcode'] == op and (f['payload'] == pl or (z and f['rsv1']))]
         if r['ok']:
+            if not on_wire and prog.get('wire_conn'):
+                # it may legitimately have gone out on the previous connection (the call ran before the reconnect)
+                other = c11.wire_frames(w, 0)[0]
+                if any(f['opcode'] == op and f['payload'] == pl for f in other):
+                    continue
             if not on_wire:
                 return 'send-returned-but-frame-absent', detail, None
             if closes and op in (1, 2) and min(on_wire) > closes[0]:
